@@ -8,7 +8,8 @@ drv_async ops (not verified; exercised on every line):
 tokens: X<τ> set_expiry (τ = N | int) · A<T|F><v> reply dispatched now · S<delay>:R<T|F><v> /
 S<delay>:O<dur> peer message readable `delay` ticks from now · V conn.serve(0) · C<c> add_callback ·
 r ready · e error · x expired · v value · w wait · T<d> tick · Y<τ> sync_request with configured
-timeout τ (fresh result) · Z<τ> timed(proxy, τ)(...) (fresh result) · Q<τ> async_request(timeout=τ).
+timeout τ (fresh result) · Z<τ> timed(proxy, τ)(...) (fresh result) · Q<τ> async_request(timeout=τ) ·
+W<τ> make a `timed(proxy, τ)` wrapper (no request yet) · K call that wrapper (fresh result).
 Output: one `<obs>@<now>` per token, then the state.
 -/
 namespace Rpyc.Drv
@@ -19,6 +20,8 @@ inductive AOp where
   | sync (τ : Option Int)
   | timed (τ : Option Int)
   | areq (τ : Option Int)
+  | mkTimed (τ : Option Int)
+  | callTimed
 
 def parseTau (cs : List Char) : Option (Option Int) :=
   match cs with
@@ -43,6 +46,8 @@ def parseAOp (tok : String) : Option AOp :=
   | 'Y' :: cs => (parseTau cs).map .sync
   | 'Z' :: cs => (parseTau cs).map .timed
   | 'Q' :: cs => (parseTau cs).map .areq
+  | 'W' :: cs => (parseTau cs).map .mkTimed
+  | ['K'] => some .callTimed
   | 'A' :: b :: cs => match parseBoolC b, parseNatChars cs with
     | some e, some v => some (.ev (.arrive e v))
     | _, _ => none
@@ -93,24 +98,31 @@ def showWorld (w : World) : String :=
     ++ " busy" ++ showPairs w.busy
     ++ " ttl" ++ (if w.ar.ttl.finite then toString w.ar.ttl.tmax else "inf")
 
-def applyAOp (w : World) : AOp → World × Obs
-  | .ev e => step w e
-  | .sync τ => syncRequest w τ
-  | .timed τ => (timedCall w τ, .unit)
-  | .areq τ => (asyncRequest w τ, .unit)
+/-- the wrapper made by the last `W` token travels next to the world; `K` without one is rejected -/
+def applyAOp (w : World) (tw : Option Timed) : AOp → Option (World × Option Timed × Obs)
+  | .ev e => some ((step w e).1, tw, (step w e).2)
+  | .sync τ => some ((syncRequest w τ).1, tw, (syncRequest w τ).2)
+  | .timed τ => some (timedCall w τ, tw, .unit)
+  | .areq τ => some (asyncRequest w τ, tw, .unit)
+  | .mkTimed τ => some (w, some (Timed.make τ), .unit)
+  | .callTimed => match tw with
+    | some t => some (Timed.call w t, tw, .unit)
+    | none => none
 
-def runAOps : World → List AOp → List String → World × List String
-  | w, [], acc => (w, acc.reverse)
-  | w, o :: os, acc =>
-    let r := applyAOp w o
-    runAOps r.1 os ((showObs r.2 ++ "@" ++ toString r.1.now) :: acc)
+def runAOps : World → Option Timed → List AOp → List String → Option (World × List String)
+  | w, _, [], acc => some (w, acc.reverse)
+  | w, tw, o :: os, acc =>
+    match applyAOp w tw o with
+    | some (w', tw', obs) => runAOps w' tw' os ((showObs obs ++ "@" ++ toString w'.now) :: acc)
+    | none => none
 
 def asyncOp : List String → String
   | "run" :: t0 :: toks =>
     match parseNatChars t0.toList, toks.mapM parseAOp with
     | some t0, some ops =>
-      let r := runAOps (World.init t0) ops []
-      " ".intercalate (r.2 ++ [showWorld r.1])
+      match runAOps (World.init t0) none ops [] with
+      | some r => " ".intercalate (r.2 ++ [showWorld r.1])
+      | none => "bad-op"
     | _, _ => "bad-op"
   | _ => "bad-op"
 
